@@ -50,11 +50,48 @@ def apply_moves(mesh, moves):
             mesh.Symmetry((0, -1, 0), (0, 1, 0))
 
 
+def view_check(mesh, dim, vmap, key, viol, frame, elem):
+    """GeometryViews.tla, View: the mesh LOOKED AT in the configuration x -> L (x - c) + c + t through the `displacementMatrix`
+    keyword of the boundary queries.  The answers are those of the moved configuration (normals turned by L - by -L under a
+    reflection, Gauss points mapped), the same the second time, and nothing of the mesh has moved."""
+    from EasyFEA.FEM import MatrixType
+
+    L = np.array([[f2(q) for q in row] for row in vmap["L"]])
+    c = np.array([f2(q) for q in vmap["c"]])
+    t = np.array([f2(q) for q in vmap["t"]])
+    X = mesh.coord.copy()
+    U = (X - c) @ L.T + c + t - X
+    sgn = np.sign(np.linalg.det(L))
+    for g in mesh.Get_list_groupElem(dim - 1):
+        n0 = np.asarray(g.Get_normals_e_pg(MatrixType.mass))
+        x0 = np.asarray(g.Get_GaussCoordinates_e_pg(MatrixType.mass))
+        for rep in (1, 2):
+            n1 = np.asarray(g.Get_normals_e_pg(MatrixType.mass, displacementMatrix=U))
+            x1 = np.asarray(g.Get_GaussCoordinates_e_pg(MatrixType.mass, displacementMatrix=U))
+            en = np.abs(n1 - sgn * n0 @ L.T).max()
+            ex = np.abs(x1 - ((x0 - c) @ L.T + c + t)).max()
+            if en > 1e-10 or ex > 1e-10 * max(1.0, np.abs(x1).max()):
+                viol.append((f"view/{key}", f"{key}: {g.elemType} looked at in a moved configuration (displacementMatrix, call {rep}): normals off by {en:.3g}, Gauss points off by {ex:.3g} from the moved ones", {"frame": frame, "elem": elem}))
+                return
+    with quiet():
+        mesh.Get_normals(displacementMatrix=U)
+        mesh.Get_normals(displacementMatrix=U)
+    if np.abs(mesh.coord - X).max() > 0:
+        viol.append((f"view-moves/{key}", f"{key}: looking at the mesh in a moved configuration moved its nodes by {np.abs(mesh.coord - X).max():.3g}", {"frame": frame, "elem": elem}))
+    for g in mesh.Get_list_groupElem():
+        if np.abs(np.asarray(g.coord) - X[g.nodes]).max() > 0:
+            viol.append((f"view-moves/{key}", f"{key}: looking at the mesh in a moved configuration moved the coordinates held by the element group {g.elemType}", {"frame": frame, "elem": elem}))
+            break
+
+
 def run_case(job):
     i, frame, dim, elem = job
     viol = []
     moves = frame["moves"]
     key = f"{elem}/{'+'.join(moves) if moves else 'identity'}"
+    hist = frame.get("hist")
+    if hist is not None:
+        key = f"{elem}/" + "+".join((h[1] if h[0] == "move" else f"view({h[1]})") for h in hist)
     A = np.array([[f2(q) for q in row] for row in frame["A"]])
     b = np.array([f2(q) for q in frame["b"]])
     try:
@@ -68,7 +105,14 @@ def run_case(job):
             X0 = mesh.coord.copy()
             # touch the caches before moving (a motion must invalidate them)
             _ = mesh.center
-            apply_moves(mesh, moves)
+            if hist is None:
+                apply_moves(mesh, moves)
+            else:
+                for kind, mv in hist:
+                    if kind == "move":
+                        apply_moves(mesh, [mv])
+                    else:
+                        view_check(mesh, dim, frame["maps"][mv], key, viol, frame, elem)
         X = mesh.coord
         Xe = X0 @ A.T + b
         if np.abs(X - Xe).max() > 1e-12 * max(1.0, np.abs(Xe).max()):
@@ -150,8 +194,19 @@ def run(ctx):
     e2 = ["TRI3", "TRI6", "QUAD4", "QUAD9", "QUAD4+mixed"] + (["TRI10", "TRI15", "QUAD8", "QUAD9+mixed"] if ctx.thorough else [])
     e3 = ["TETRA4", "HEXA8", "PRISM6"] + (["TETRA10", "HEXA20", "HEXA27", "PRISM15", "PRISM18"] if ctx.thorough else [])
     jobs = [(i, f, 2, e) for i, f in enumerate(frames) for e in e2] + [(i, f, 3, e) for i, f in enumerate(frames) for e in e3]
-    ctx.pmap(run_case, jobs, chunksize=2)
-    ctx.section("replay", frames=len(frames), element_types=e2 + e3, jobs=len(jobs))
+    # GeometryViews.tla: histories of motions and VIEWS (queries in a moved configuration through `displacementMatrix`)
+    resv = ctx.tlc_must_hold("GeometryViews", "GeometryViews.cfg", what="PureView / FrameIsFoldOfMoves / Isometry / Parity", workers=4)
+    vframes = [f for f in resv.prints.get("VFRAME", []) if any(h[0] == "view" for h in f["hist"])]
+    if not vframes:
+        from harness.core import MachineryError
+
+        raise MachineryError("GeometryViews.tla emitted no history with a view")
+    ev2 = ["TRI3", "QUAD4", "TRI6"] + (["QUAD9", "QUAD4+mixed"] if ctx.thorough else [])
+    ev3 = ["TETRA4", "HEXA8"] + (["PRISM6"] if ctx.thorough else [])
+    # 2-D meshes are looked at in in-plane configurations only (their normals are defined in the plane)
+    vjobs = [(1000 + i, f, 2, e) for i, f in enumerate(vframes) for e in ev2 if all(h[1] != "rotx" for h in f["hist"])] + [(1000 + i, f, 3, e) for i, f in enumerate(vframes) for e in ev3]
+    ctx.pmap(run_case, jobs + vjobs, chunksize=2)
+    ctx.section("replay", frames=len(frames), element_types=e2 + e3, jobs=len(jobs), histories_with_views=len(vframes), view_jobs=len(vjobs))
     ctx.sample(frames[min(3, len(frames) - 1)])
     ctx.cov["exhaustive"] = True
     ctx.cov["rule"] = "every frame of Geometry.tla (all sequences of up to MaxMoves motions) replayed on an unstructured mesh of the integer pentagon / its extrusion for every listed element type; distinct = (element type, motion sequence)"
